@@ -1,5 +1,5 @@
-CONSTANTS Graphs = {"line", "tri", "dead", "selfl", "pair", "star4", "ring4"} T = 4 QE = {0, 1, 2, 3} QN = {0, 1, 2} NodeModes = {TRUE, FALSE} NEs = {TRUE, FALSE}
-  Widths = {0, 1, 2} Cuts = {"none", "dist", "init", "prob", "both"} MaxOps = 1 SAMPLE = 24 Moves = {"m11", "m00"} EMIT = FALSE
+CONSTANTS Graphs = {"line", "tri", "dead", "selfl", "pair", "star4", "ring4"} T = 4 QE = {0, 1, 2, 3} QN = {0, 1, 2} NodeModes = {TRUE, FALSE} NEs = {FALSE}
+  Widths = {0, 1, 2} Cuts = {"none", "dist", "init", "prob", "both"} MaxOps = 1 SAMPLE = 48 Moves = {"m11", "m00"} EMIT = FALSE
   ExhGraphs = {} Debugs = {FALSE} REUSE = FALSE
 SPECIFICATION Spec
 INVARIANT C10order
